@@ -104,7 +104,8 @@ func c16Run(c c16Case) Verdict {
 	var priorErr, staleErr error
 	var priorWriter io.WriteCloser
 	var staleWrote int64
-	var closeErr, close2Err, noopErr, setupErr error
+	staleDone := false
+	var closeErr, close2Err, noopErr, setupErr, envErr error
 	var consumed1, consumed2 int64
 	var wantRcpts []string
 	ok := withClient(r, c.LMTP, func(cl *smtp.Client, w *harness.Wire) {
@@ -138,7 +139,7 @@ func c16Run(c c16Case) Verdict {
 			priorWriter = pw
 		}
 		if err := cl.Mail(sender, nil); err != nil {
-			setupErr = err
+			envErr = fmt.Errorf("Mail(%q): %w", sender, err)
 			return
 		}
 		for i, acc := range c.Rcpts {
@@ -147,7 +148,7 @@ func c16Run(c c16Case) Verdict {
 			if acc {
 				wantRcpts = append(wantRcpts, to)
 				if err != nil {
-					setupErr = err
+					envErr = fmt.Errorf("Rcpt(%q): %w", to, err)
 					return
 				}
 			}
@@ -180,6 +181,7 @@ func c16Run(c c16Case) Verdict {
 			staleErr = priorWriter.Close()
 			w.WaitQuiet()
 			staleWrote = w.S.Consumed() - before
+			staleDone = true
 		}
 		if _, err := wc.Write(c.Body[prev:]); err != nil {
 			setupErr = err
@@ -195,11 +197,20 @@ func c16Run(c c16Case) Verdict {
 		}
 		noopErr = cl.Noop()
 	})
+	if staleDone && staleErr == nil {
+		return failf("second-close", "Close of the earlier message's writer, called again while the next message was being written, returned nil (and put %d octets on the wire)", staleWrote)
+	}
+	if staleDone && staleWrote != 0 {
+		return failf("second-close-wrote", "Close of the earlier message's writer, called again while the next message was being written, put %d octets on the wire", staleWrote)
+	}
 	if !ok && lastClientStuck {
 		return failf("client-hang", "a client call never returns: client and server both wait for each other (recipients %v, LMTP %v, first Close returned %v)", c.Rcpts, c.LMTP, closeErr)
 	}
 	if !ok {
 		return Verdict{Inconclusive: "watchdog in client run"}
+	}
+	if envErr != nil {
+		return failf("envelope-refused", "a well-formed sender / recipient the backend accepts could not be given: %v", envErr)
 	}
 	if setupErr != nil && c.SlowMs > 0 {
 		return failf("slow-producer", "after pausing %d ms before the body (CommandTimeout %d ms) a client call failed: %v", c.SlowMs, c.SlowMs/2, setupErr)
@@ -237,12 +248,6 @@ func c16Run(c c16Case) Verdict {
 	}
 	if c.StaleClose && c.Prior {
 		v.Classes = append(v.Classes, "earlier_writer_closed_again_mid_message")
-		if staleErr == nil {
-			return failf("second-close", "Close of the earlier message's writer, called again while the next message was being written, returned nil")
-		}
-		if staleWrote != 0 {
-			return failf("second-close-wrote", "Close of the earlier message's writer, called again while the next message was being written, put %d octets on the wire", staleWrote)
-		}
 	}
 	evs := r.B.Events()
 	des := dataEvents(evs)
